@@ -31,6 +31,7 @@ type c18Case struct {
 	Payload []byte `json:"payload,omitempty"`
 	Dgram   []byte `json:"datagram,omitempty"`
 	Mcast   bool   `json:"multicast,omitempty"`
+	ReadBuf int    `json:"read_buffer_bytes,omitempty"` // size of the caller-supplied read buffer (frame)
 }
 
 func rawParser(b []byte) ([]syscall.NetlinkMessage, error) {
@@ -443,12 +444,34 @@ func c18Run(c *mon.Ctx) {
 		}
 	}
 	cl.Close()
+	// caller-supplied read buffers that the kernel's reply fills exactly (and nearly): the datagram is
+	// complete, so Receive must return it unchanged
+	for _, n := range []int{0, 1, 3, 4, 5, 16, 37, 100, 1000, 4060, 8970} {
+		for _, slack := range []int{0, 1, 4, 64} {
+			k := &c18Case{Kind: "frame", Type: uint16(256 + r.Intn(60000)), Flags: uapi.NlmFRequest, Payload: r.Bytes(n)}
+			k.ReadBuf = 16 + 4 + 16 + (n+3)&^3 + slack // NLMSG_ERROR header + errno + echoed request (padded)
+			cl, err := libaudit.NewNetlinkClient(syscall.NETLINK_ROUTE, 0, make([]byte, k.ReadBuf), nil)
+			if err != nil {
+				c.Inconclusive("cannot open NETLINK_ROUTE socket: " + err.Error())
+				return
+			}
+			var last uint32
+			for rep := 0; rep < 2; rep++ { // twice: the second reply meets whatever the first receive left behind
+				if c18Frame(c, cl, k, &last) && slack == 0 {
+					c.Add("replies_filling_the_read_buffer_exactly", 1)
+				}
+				c.Add("evaluations", 1)
+			}
+			cl.Close()
+		}
+	}
 	c18Sequences(c)
 	c18Spoof(c)
 	c18Parse(c)
 	c.Require("frames_echoed", 100)
 	c.Require("payload_echoes_compared", 100)
 	c.Require("header_only_echoes", 10)
+	c.Require("replies_filling_the_read_buffer_exactly", 10)
 	c.Require("concurrent_sends", 1000)
 	c.Require("spoofed_datagrams_received", 50)
 	c.Require("spoofed_shorter_than_header", 5)
@@ -459,7 +482,7 @@ func c18Run(c *mon.Ctx) {
 func init() {
 	register(&mon.CheckSpec{
 		ID: "C18", Level: "exploration",
-		Rule: "cases = (a,c) requests sent with NetlinkClient.Send on a real NETLINK_ROUTE socket - types 0..15 with NLM_F_ACK (header-only echo) and random types in 256..65535 (never 16..255: live rtnetlink operations), flags = any 16 bits | NLM_F_REQUEST, payload lengths 0..8970 (every 37th quick, every length thorough) plus every length 0..64 and random short payloads - whose NLMSG_ERROR reply, read back with Receive, carries the request as the kernel saw it (length, type, flags, port id, sequence = returned value, payload bytes); (b) N in {2,4,16} goroutines x M sends on one client: per-goroutine increasing, globally distinct, and the recorded {call, return, value} history checked with porcupine against a fetch-and-increment model (direct interval check when porcupine gives up); (d) datagrams of every length 0..64 and random longer ones, arbitrary and ACK-shaped contents, unicast and multicast from a second user-space netlink socket (NETLINK_ROUTE as root, NETLINK_USERSOCK): Receive must return an error and no message, and a later kernel reply must still be received; (e) AuditClient.Receive over the simulated Netlink with datagrams of every length 0..64 and random longer ones ending at a PROT_NONE page. Runs under the race detector; ASan in thorough. distinct_nontrivial = distinct frames, spoofed datagrams, parse inputs and sequence histories.",
+		Rule: "cases = (a,c) requests sent with NetlinkClient.Send on a real NETLINK_ROUTE socket - types 0..15 with NLM_F_ACK (header-only echo) and random types in 256..65535 (never 16..255: live rtnetlink operations), flags = any 16 bits | NLM_F_REQUEST, payload lengths 0..8970 (every 37th quick, every length thorough) plus every length 0..64, random short payloads, and clients whose caller-supplied read buffer the reply fills exactly or with 1/4/64 bytes to spare - whose NLMSG_ERROR reply, read back with Receive, carries the request as the kernel saw it (length, type, flags, port id, sequence = returned value, payload bytes); (b) N in {2,4,16} goroutines x M sends on one client: per-goroutine increasing, globally distinct, and the recorded {call, return, value} history checked with porcupine against a fetch-and-increment model (direct interval check when porcupine gives up); (d) datagrams of every length 0..64 and random longer ones, arbitrary and ACK-shaped contents, unicast and multicast from a second user-space netlink socket (NETLINK_ROUTE as root, NETLINK_USERSOCK): Receive must return an error and no message, and a later kernel reply must still be received; (e) AuditClient.Receive over the simulated Netlink with datagrams of every length 0..64 and random longer ones ending at a PROT_NONE page. Runs under the race detector; ASan in thorough. distinct_nontrivial = distinct frames, spoofed datagrams, parse inputs and sequence histories.",
 		Assumptions: []string{
 			"the running kernel echoes rejected NETLINK_ROUTE requests in NLMSG_ERROR replies (netlink_ack) and delivers user-to-user netlink datagrams for root; if sockets cannot be opened the check is inconclusive, not green",
 			"message types 16..255 are never sent (they are live rtnetlink operations)",
@@ -480,7 +503,10 @@ func init() {
 			}
 			switch k.Kind {
 			case "frame":
-				cl, err := libaudit.NewNetlinkClient(syscall.NETLINK_ROUTE, 0, make([]byte, 32768), nil)
+				if k.ReadBuf == 0 {
+					k.ReadBuf = 32768
+				}
+				cl, err := libaudit.NewNetlinkClient(syscall.NETLINK_ROUTE, 0, make([]byte, k.ReadBuf), nil)
 				if err != nil {
 					fmt.Println("replay:", err)
 					return
